@@ -100,8 +100,21 @@ def _step(self):
     r.dump()
 
 
+_orig_run = Environment.run
+
+
+def _run(self, simulation_duration, trace=False):
+    r = CTX
+    if r is not None and self is r.env:
+        # state after System.simulate's initialisation, before the first event of this run
+        r.flush_results()
+        r.dump()
+    return _orig_run(self, simulation_duration, trace)
+
+
 Event.__init__ = _event_init
 Environment.step = _step
+Environment.run = _run
 # ReservedResources.__del__ prints and dereferences a possibly missing env: silence it.
 resource_manager.ReservedResources.__del__ = lambda self: None
 
